@@ -1122,11 +1122,12 @@ def eval_generator(module, fdef, kind, param_values=None):
     type met in a field loop is of `kind`.  Returns (return value, evaluator)."""
     ev = GenEval(module, kind=kind)
     env = Env(ev)
-    for a in fdef.args.args + fdef.args.kwonlyargs:
+    for a in fdef.args.args + fdef.args.kwonlyargs + ([fdef.args.vararg] if fdef.args.vararg else []):
         env.set(a.arg, (param_values or {}).get(a.arg, Sym(a.arg)))
     sig = ev.exec_block(fdef.body, env)
     if sig is None or sig[0] != 'return':
         raise AnalysisError(f"{fdef.name}: no return value on the analysed path")
+    ev.final_env = env
     return sig[1], ev
 
 
@@ -1147,6 +1148,7 @@ def eval_case(module, fobj_or_def, kind, type_param=None, closure=None):
     sig = ev.exec_block(fdef.body, env)
     if sig is None or sig[0] != 'return':
         raise AnalysisError(f"{fdef.name}[{kind}]: no return value on the analysed path")
+    ev.final_env = env
     return sig[1], ev, Sym(tp)
 
 
@@ -1275,3 +1277,194 @@ def walk_values(v):
                             todo.append(y)
                         elif isinstance(y, tuple):
                             todo.extend(z for z in y if isinstance(z, V))
+
+
+# ---------------------------------------------------------------------------
+# pretty printer (normalised, position independent: used in finding keys and messages)
+def show(v):
+    if isinstance(v, str):
+        return v
+    if isinstance(v, (int, bool)) or v is None:
+        return repr(v)
+    if isinstance(v, tuple):
+        return '(' + ', '.join(show(x) for x in v) + ')'
+    if isinstance(v, Const):
+        return repr(v.value)
+    if isinstance(v, Sym):
+        return v.name
+    if isinstance(v, Lin):
+        if v.is_const:
+            return str(v.const)
+        out = []
+        for a, c in v.terms:
+            out.append(('-' if c < 0 else '+') + ('' if abs(c) == 1 else f"{abs(c)}*") + show(a))
+        s = ' '.join(out).lstrip('+')
+        if v.const:
+            s += f" {'+' if v.const > 0 else '-'} {abs(v.const)}"
+        return s.strip()
+    if isinstance(v, Tmpl):
+        return 'f"' + ''.join(p if isinstance(p, str) else '{' + show(p) + '}' for p in v.parts) + '"'
+    if isinstance(v, Join):
+        return f"{show(v.sep)}.join({show(v.seq)})"
+    if isinstance(v, (SeqV,)):
+        return '[' + ', '.join(show(s) for s in v.segs) + ']'
+    if isinstance(v, DictV):
+        return (v.name or '') + '{' + ', '.join(show(s) for s in v.segs) + '}'
+    if isinstance(v, Item):
+        return show(v.v)
+    if isinstance(v, Splice):
+        return '*' + show(v.v)
+    if isinstance(v, LoopSeg):
+        fl = f" [{','.join(v.flags)}]" if v.flags else ''
+        return f"<for {show(v.loop.space)}{fl}: {', '.join(show(s) for s in v.segs)}>"
+    if isinstance(v, CondSeg):
+        return f"<if {'' if v.pol else 'not '}{show(v.test)}: {', '.join(show(s) for s in v.segs)}>"
+    if isinstance(v, Rev):
+        return f"reversed({show(v.v)})"
+    if isinstance(v, Tup):
+        return '(' + ', '.join(show(x) for x in v.items) + ')'
+    if isinstance(v, Attr):
+        return f"{show(v.v)}.{v.name}"
+    if isinstance(v, Sub):
+        return f"{show(v.v)}[{show(v.idx)}]"
+    if isinstance(v, SliceV):
+        return ':'.join('' if x is None else show(x) for x in (v.lo, v.hi, v.step))
+    if isinstance(v, Len):
+        return f"len({show(v.v)})"
+    if isinstance(v, Innermost):
+        return f"innermost({show(v.v)})"
+    if isinstance(v, FieldsOf):
+        return f"fields_of({show(v.v)})"
+    if isinstance(v, RangeSp):
+        return v.desc
+    if isinstance(v, ItemsSp):
+        return f"{show(v.d)}.items()"
+    if isinstance(v, KeysSp):
+        return f"keys({show(v.d)})"
+    if isinstance(v, ValuesSp):
+        return f"{show(v.d)}.values()"
+    if isinstance(v, EnumSp):
+        return f"enumerate({show(v.v)})"
+    if isinstance(v, SeqSp):
+        return show(v.v)
+    if isinstance(v, Wrapped):
+        return f"{v.fn}({show(v.space)})"
+    if isinstance(v, Loop):
+        return show(v.space)
+    if isinstance(v, LoopVar):
+        return f"<{v.role} of {show(v.loop.space)}>"
+    if isinstance(v, Carried):
+        return v.name
+    if isinstance(v, Fold):
+        return f"fold({v.name} = {show(v.init)}; for {show(v.loop.space)}: {v.name} = {show(v.step)})"
+    if isinstance(v, LastIter):
+        return f"last({show(v.v)})"
+    if isinstance(v, Phi):
+        return f"({show(v.a)} if {show(v.test)} else {show(v.b)})"
+    if isinstance(v, Rec):
+        return f"{v.fn}({', '.join(show(a) for a in v.args)})"
+    if isinstance(v, Proj):
+        return f"{show(v.v)}[{v.k}]"
+    if isinstance(v, CallV):
+        return f"{v.fn}({', '.join(show(a) for a in v.args)})"
+    if isinstance(v, (Bin, Cmp)):
+        return f"({show(v.l)} {v.op} {show(v.r)})"
+    if isinstance(v, BoolV):
+        return '(' + f" {v.op} ".join(show(x) for x in v.vals) + ')'
+    if isinstance(v, Not):
+        return f"not {show(v.v)}"
+    if isinstance(v, KindTest):
+        return f"is_{v.kind}({show(v.v)})"
+    if isinstance(v, Fmt):
+        return show(v.v) + '!fmt'
+    if isinstance(v, Fn):
+        return f"def {show(v.name)}({show(v.args)}): {show(v.body)}"
+    return repr(v)
+
+
+def subst_values(v, mapping):
+    """structural substitution value -> value inside a value"""
+    if isinstance(v, V) and v in mapping:
+        return mapping[v]
+    if isinstance(v, Lin):
+        out = Lin(v.const)
+        for a, c in v.terms:
+            out = out.add(lin(subst_values(a, mapping)).scale(c))
+        return out
+    if isinstance(v, Tmpl):
+        return mk_tmpl([p if isinstance(p, str) else subst_values(p, mapping) for p in v.parts])
+    if isinstance(v, V):
+        args = []
+        for k in v._k():
+            args.append(_subst_any(k, mapping))
+        return type(v)(*args)
+    return v
+
+
+def _subst_any(k, mapping):
+    if isinstance(k, V):
+        return subst_values(k, mapping)
+    if isinstance(k, tuple):
+        return tuple(_subst_any(x, mapping) for x in k)
+    return k
+
+
+class Site:
+    """one occurrence of a recursive-helper result inside an evaluated value"""
+    def __init__(self, rec, loops, conds, proj, wrappers):
+        self.rec, self.loops, self.conds, self.proj, self.wrappers = rec, loops, conds, proj, wrappers
+
+
+def rec_sites(v, loops=(), conds=(), proj=None, wrappers=()):
+    """all occurrences of Rec values with their enclosing loops (LoopSeg / Fold), undecided conditions,
+    the projection applied and the wrappers (Rev / Join / Splice / Item / Tmpl) passed on the way"""
+    out = []
+    if isinstance(v, Rec):
+        out.append(Site(v, loops, conds, proj, wrappers))
+        return out
+    if isinstance(v, Proj):
+        return rec_sites(v.v, loops, conds, v.k, wrappers)
+    if isinstance(v, LoopSeg):
+        for s in v.segs:
+            out += rec_sites(s, loops + (v.loop,), conds, None, wrappers)
+        return out
+    if isinstance(v, CondSeg):
+        for s in v.segs:
+            out += rec_sites(s, loops, conds + ((v.test, v.pol),), None, wrappers)
+        return out
+    if isinstance(v, Fold):
+        out += rec_sites(v.init, loops, conds, None, wrappers)
+        out += rec_sites(v.step, loops + (v.loop,), conds, None, wrappers + ('Fold',))
+        return out
+    if isinstance(v, Phi):
+        out += rec_sites(v.a, loops, conds + ((v.test, True),), None, wrappers)
+        out += rec_sites(v.b, loops, conds + ((v.test, False),), None, wrappers)
+        return out
+    if isinstance(v, Lin):
+        for a, _ in v.terms:
+            out += rec_sites(a, loops, conds, None, wrappers)
+        return out
+    if isinstance(v, V):
+        w = wrappers + (type(v).__name__,)
+        for k in v._k():
+            out += _sites_any(k, loops, conds, w)
+    return out
+
+
+def _sites_any(k, loops, conds, w):
+    out = []
+    if isinstance(k, V):
+        out += rec_sites(k, loops, conds, None, w)
+    elif isinstance(k, tuple):
+        for x in k:
+            out += _sites_any(x, loops, conds, w)
+    return out
+
+
+def loops_in(v):
+    """all Loop values mentioned by LoopSegs / Folds of a value"""
+    out = []
+    for x in walk_values(v):
+        if isinstance(x, (LoopSeg, Fold)) and x.loop not in out:
+            out.append(x.loop)
+    return out
